@@ -587,6 +587,21 @@ def _g4(run, M, alg):
                     argok = False
             run.check(ok and argok, "G4", cname + ".__init__", f.loc(), "validators %s run on the operand list before the node is built" % names,
                       "%s.__init__ runs %s; expected %s applied to the operand list before super().__init__" % (cname, order, names), stmt="G4:init:" + cname)
+    # G4c: flattening keeps every operand (so that validating the flattened list is validating the given one)
+    run.rule("G4c", "_combine_compose_linops keeps every operand that is not itself a Compose (nothing is filtered out before or after validation)")
+    fc = M.func("sigpy.linop._combine_compose_linops")
+    outs = [o for o in alg.vn(fc, loop_hook=unroll_loop).run(fc.body, State({"linops": (A, B, C)})) if o.status == "return"]
+    names = [x.as_term() for x in (A, B, C)]
+    dropped = []
+    for o in outs:
+        rt = _t(o.ret)
+        flat = T.show(rt, 4000) if isinstance(rt, T.Poly) else " ".join(T.show(_t(x), 400) for x in (o.ret if isinstance(o.ret, tuple) else ()))
+        for nm, sym, lv in zip("ABC", names, (A, B, C)):
+            if ("attr:linops(%s)" % T.show(sym, 50)) not in flat and repr(lv) not in flat and not (isinstance(o.ret, tuple) and any(x is lv for x in o.ret)):
+                dropped.append((nm, cond_text(o.conds)[:100]))
+    run.check(bool(outs) and not dropped, "G4c", "_combine_compose_linops", fc.loc(), "every operand (or its own factors) is kept on every path",
+              "_combine_compose_linops drops operand(s) %s: an operand that is left out is neither applied nor shape-checked, so incompatible operands are combined "
+              "instead of rejected" % dropped[:3], stmt="G4c")
     # Compose must store the flattened list, Diag/Hstack/Vstack obtain shapes from the helpers applied to the children's shapes
     for cname, helper, attr in (("Hstack", "_hstack_params", "ishape"), ("Vstack", "_vstack_params", "oshape")):
         inst = alg.instances(M.cls("sigpy.linop." + cname))[0]
